@@ -42,6 +42,32 @@ def case_two_routes_reorder(cid, kind, rng, orders):
     return (ddgen.header(cid, kind), ops)
 
 
+def case_node_counts(cid, kind, rng, nv, nfun, norders):
+    """node_count of every handle vs. the size of the reduced diagram built (extracted build_kind,
+    coq/DD/BuildCanon.v) from the handle's value table: nv <= 6 variables, all (nv = 3) or random
+    functions, under the initial and norders random variable orders"""
+    ops = [f"VARS {nv}"]
+    if nv == 3:
+        n = 256
+        for i in range(n):
+            ops.append(f"TT h{i} 3 {i:x}")
+    else:
+        n = nfun
+        for i in range(n):
+            ops.append(f"{rng.choice(['TT', 'TTI'])} h{i} {nv} {ddgen.rand_tt(rng, nv):x}")
+    for i in range(n):
+        ops.append(f"NC h{i}")
+    ops.append("SNAP")
+    for _ in range(norders):
+        order = list(range(nv))
+        rng.shuffle(order)
+        ops.append("ORDER " + " ".join(map(str, order)))
+        for i in range(n):
+            ops.append(f"NC h{i}")
+        ops.append("SNAP")
+    return (ddgen.header(cid, kind), ops)
+
+
 def gen_cases(ctx):
     rng = random.Random(ctx.seed * 7919 + 3)
     thorough = ctx.tier == "thorough"
@@ -51,6 +77,10 @@ def gen_cases(ctx):
         orders = list(ddgen.PERMS3)
         rng.shuffle(orders)
         cases.append(case_two_routes_reorder(f"r{cid}", kind, rng, orders if thorough else orders[:3])); cid += 1
+        cases.append(case_node_counts(f"n{cid}", kind, rng, 3, 256, 5 if thorough else 2)); cid += 1
+        for nv in (4, 5, 6):
+            for _ in range(12 if thorough else 3):
+                cases.append(case_node_counts(f"n{cid}", kind, rng, nv, 60 if thorough else 24, 4 if thorough else 2)); cid += 1
         for threads in ([1, 2, 8] if thorough else [1, 4]):
             for _ in range(400 if thorough else 40):
                 cases.append(ddgen.case_history(f"h{cid}", kind, rng, nv=rng.randrange(3, 7), length=rng.choice([30, 60, 120]),
